@@ -134,7 +134,8 @@ _reg(Subject(
 
 _reg(Subject(
     'txn.tags_links', {'A': _is(M.Tag), 'B': _is(M.Link)},
-    lambda p: '2000-01-01 * "n"' + ''.join(f' #t{i}' if k == 'A' else f' ^l{i}' for i, k in enumerate(p)) + '\n',
+    # equal values on purpose (#t #t ...): discard / remove / index / count must cope with duplicates
+    lambda p: '2000-01-01 * "n"' + ''.join(' #t' if k == 'A' else ' ^l' for i, k in enumerate(p)) + '\n',
     lambda root: root.raw_directives[0], 'raw_tags_links',
     [View('raw_tags_links', ''), View('tags', 'A', conv=lambda x: x.value, mk={'A': lambda i: f'n{i}'}),
      View('links', 'B', conv=lambda x: x.value, mk={'B': lambda i: f'n{i}'})],
@@ -142,7 +143,7 @@ _reg(Subject(
 
 _reg(Subject(
     'open.currencies', {'A': _is(M.Currency)},
-    lambda p: '2000-01-01 open Assets:Foo' + (' ' + ', '.join(f'C{i}X' for i, _ in enumerate(p)) if p else '') + '\n',
+    lambda p: '2000-01-01 open Assets:Foo' + (' ' + ', '.join(f'C{i % 2}X' for i, _ in enumerate(p)) if p else '') + '\n',
     lambda root: root.raw_directives[0], 'raw_currencies',
     [View('raw_currencies', ''), View('currencies', 'A', conv=lambda x: x.value, mk={'A': lambda i: f'N{i}X'})],
     {'A': lambda i: M.Currency.from_value(f'N{i}X')}))
